@@ -8,7 +8,10 @@ meson and write ONE record per NinjaBackend.generate() call:
    'added': n add_build calls, 'check_outputs': n calls, 'collisions': [[path, outs of the element], ...],
    'all_outputs_ok': bool|None, 'all_outputs_diff': {...},       # invariant after a successful generate
    'targets': [[id, type, build_by_default, [build-dir relative outputs]], ...],   # meson's own target table
-   'tests': [[name, is_benchmark, [[target id, [outputs], via], ...]], ...]}   # via: exe|arg|dep|local-program-<role>
+   'tests': [[name, is_benchmark, [[target id, [outputs], via], ...]], ...],   # via: exe|arg|dep|local-program-<role>
+   'orphaned_subprojects': [{'name', 'failed_ancestors', 'callstack', 'own_targets', 'dropped_paths'}, ...]}
+       # found subprojects first configured inside an optional subproject that failed (Interpreter.subprojects of the
+       # top-level interpreter, remembered by a wrapper on Interpreter.__init__); only used to CLASSIFY a dangling path
 
 `rsp_threshold` (None = leave) sets ninjabackend.rsp_threshold in the child, the same knob as the
 MESON_RSP_THRESHOLD environment variable (which is read at import time, i.e. before the fork).
@@ -126,6 +129,64 @@ def make_monitor(rsp_threshold: T.Optional[int] = None) -> T.Callable[[T.Callabl
                 targets.append(['<table error>', type(e).__name__, None, [str(e)[:200]]])
             return targets, tests
 
+        def orphaned_subprojects(backend: T.Any) -> T.List[dict]:
+            """Subprojects that are registered as found in Interpreter.subprojects although they were configured
+            from within an optional subproject that then failed (some entry of their call stack is registered as
+            not found): the Build copy they were merged into was thrown away with the failed subproject.  For each,
+            the build-dir paths of its own targets that did not make it into the final Build (classifier input only:
+            WHY a path dangles; whether it dangles is decided on the manifest)."""
+            res: T.List[dict] = []
+            top = tops[-1] if tops else None
+            if top is None:
+                return res
+            seen: T.Set[int] = set()
+            final = backend.build.get_targets()
+            for attr in ('host', 'build'):
+                subs = getattr(top.subprojects, attr, None)
+                if not isinstance(subs, dict) or id(subs) in seen:
+                    continue
+                seen.add(id(subs))
+                for name, holder in subs.items():
+                    if not holder.found() or not holder.callstack:
+                        continue
+                    failed = [str(n) for n, _m in holder.callstack if n in subs and not subs[n].found()]
+                    if not failed:
+                        continue
+                    paths: T.List[str] = []
+                    n_own = 0
+                    for tid, t in holder.held_object.build.get_targets().items():
+                        if getattr(t, 'subproject', None) != name:
+                            continue
+                        n_own += 1
+                        if tid in final:
+                            continue
+                        try:
+                            d = backend.get_target_private_dir(t) if type(t).__name__ == 'CompileTarget' \
+                                else backend.get_target_dir(t)
+                            paths += [os.path.join(d, o) for o in t.get_outputs()]
+                        except Exception:
+                            pass
+                    res.append({'name': str(name), 'machine': attr, 'failed_ancestors': failed,
+                                'callstack': [str(n) for n, _m in holder.callstack],
+                                'own_targets': n_own, 'dropped_paths': sorted(set(paths))})
+            return res
+
+        tops: T.List[T.Any] = []
+        try:
+            from mesonbuild.interpreter import interpreter as _interp
+            orig_interp_init = _interp.Interpreter.__init__
+
+            def interp_init(self: T.Any, *a: T.Any, **kw: T.Any) -> None:
+                orig_interp_init(self, *a, **kw)
+                try:
+                    if not self.subproject:
+                        tops.append(self)
+                except Exception:
+                    pass
+            _interp.Interpreter.__init__ = interp_init
+        except Exception:
+            pass
+
         def generate(self: T.Any, *a: T.Any, **kw: T.Any) -> T.Any:
             reset()
             ok = False
@@ -152,6 +213,11 @@ def make_monitor(rsp_threshold: T.Optional[int] = None) -> T.Callable[[T.Callabl
                                                       'only_added': sorted(added - ao)[:10]}
                         ev['all_outputs_n'] = len(ao)
                     ev['targets'], ev['tests'] = target_table(self)
+                    try:
+                        ev['orphaned_subprojects'] = orphaned_subprojects(self)
+                    except Exception as e:
+                        ev['orphaned_subprojects'] = []
+                        ev['orphaned_subprojects_error'] = repr(e)[:200]
                     rec(ev)
                 except Exception as e:   # never through meson
                     try:
